@@ -27,6 +27,9 @@ def program_strategy(role):
     elif role == 'reader':
         op = st.one_of(st.tuples(st.just('read'), name), st.tuples(st.just('read'), name), st.tuples(st.just('readall')),
                        st.tuples(st.just('begin')), st.tuples(st.just('minimize')), st.tuples(st.just('commit')))
+    elif role == 'undoer':
+        op = st.one_of(st.tuples(st.just('undo'), st.integers(0, 5)), st.tuples(st.just('undo'), st.integers(0, 1)),
+                       st.tuples(st.just('read'), name), st.tuples(st.just('begin')))
     elif role == 'allocator':
         op = st.one_of(st.tuples(st.just('new_oid')), st.tuples(st.just('new_oid')), st.tuples(st.just('add_commit')))
     else:
@@ -53,6 +56,7 @@ class ThreadRun:
             tm.commit()
         self.oids = {n: c.root()[n]._p_oid for n in NAMES}
         from vlib import clock
+        self.pre_tids = []
         for i in range(prehistory):
             # superseded revisions, so that a pack has something to free
             clock.CLOCK.advance(1.0)
@@ -61,6 +65,7 @@ class ThreadRun:
                 o.v = -1 - i
                 o.derived_from = o._p_serial
             tm.commit()
+            self.pre_tids.append(c.root()[PLAIN[0]]._p_serial)
         clock.CLOCK.advance(1.0)
         tm.abort()
         c.close()
@@ -68,9 +73,25 @@ class ThreadRun:
         self.wid = 0
         self.sched = None
         self.issued = []        # (thread, oid) from new_oid calls
+        # the tid of an undo transaction is taken where its storage instance receives it
+        import ZODB.mvccadapter
+        self.undo_tid = {}
+        U = ZODB.mvccadapter.UndoAdapterInstance
+        self._orig_undo_finish = orig = U.__dict__['tpc_finish']
+        run = self
+
+        def tpc_finish(inst, transaction, func=lambda tid: None):
+            def f(tid):
+                me = run.sched.me() if run.sched else None
+                run.undo_tid[me.name if me else None] = tid
+                func(tid)
+            return orig(inst, transaction, f)
+        U.tpc_finish = tpc_finish
 
     def close(self):
         rawio.WRAP = None
+        import ZODB.mvccadapter
+        ZODB.mvccadapter.UndoAdapterInstance.tpc_finish = self._orig_undo_finish
         try:
             self.db.close()
         except Exception:
@@ -147,6 +168,29 @@ class ThreadRun:
                             clock.CLOCK.advance(0.01)
                             wrote = {}
                             self.log(th, 'boundary')
+                        elif k == 'undo':
+                            # undo one of the write transactions committed during this run
+                            import base64
+                            from ZODB.POSException import UndoError
+                            cands = self.pre_tids[1:] + [d_[0] for _, _, kind, d_ in self.events
+                                                         if kind == 'commit-ok' and d_[0] and d_[1]]
+                            if cands:
+                                target = cands[op[1] % len(cands)]
+                                self.log(th, 'commit-start', {})
+                                self.undo_tid.pop(th, None)
+                                try:
+                                    self.db.undo(base64.encodebytes(target).rstrip(b'\n'), tm.get())
+                                    tm.commit()
+                                except UndoError as e:
+                                    self.log(th, 'undo-refused', str(e)[:80])
+                                    self.log(th, 'boundary-start')
+                                    tm.abort()
+                                else:
+                                    self.log(th, 'undo-ok', (self.undo_tid.get(th), target))
+                                    from vlib import clock
+                                    clock.CLOCK.advance(0.01)
+                                wrote = {}
+                                self.log(th, 'boundary')
                         elif k == 'new_oid':
                             oid = self.db.storage.new_oid()
                             self.issued.append((th, oid))
@@ -230,12 +274,21 @@ class ThreadRun:
                 revs[nme] = sorted([x for x in before[nme] if x[0] not in have] + revs[nme], key=lambda x: x[0])
         # revisions written by commits that returned during the run and are not in the storage (any more):
         # placeholders (state unknown); whether a pack was entitled to drop them is judged by history_oracle
+        wrote_by = {t: list(PLAIN) for t in getattr(self, 'pre_tids', [])}
+        for tick, th, kind, data in self.events:
+            if kind == 'commit-ok' and data[0]:
+                wrote_by[data[0]] = list(data[1])
         for tick, th, kind, data in self.events:
             if kind == 'commit-ok' and data[0]:
                 tid, wrote = data
-                for nme, w in wrote.items():
-                    if nme in revs and tid not in {t for t, _ in revs[nme]}:
-                        revs[nme] = sorted(revs[nme] + [(tid, {'_placeholder': True, 'v': w})], key=lambda x: x[0])
+            elif kind == 'undo-ok' and data[0]:
+                # an undo writes a revision of every object its target wrote
+                tid, wrote = data[0], {nme: None for nme in wrote_by.get(data[1], [])}
+            else:
+                continue
+            for nme, w in wrote.items():
+                if nme in revs and tid not in {t for t, _ in revs[nme]}:
+                    revs[nme] = sorted(revs[nme] + [(tid, {'_placeholder': True, 'v': w})], key=lambda x: x[0])
         return revs
 
     def pack_tids(self):
@@ -329,11 +382,15 @@ def history_oracle(run, out, prop):
     """C03 (threads): every revision was derived from its immediate predecessor; every commit that
     returned is in the storage"""
     revs = run.history()
+    undo_tids = {d_[0] for _, _, kind, d_ in run.events if kind == 'undo-ok'}
+    if None in undo_tids:
+        from vlib.driver import HarnessError
+        raise HarnessError('tid of an undo transaction not captured')
     for nme in PLAIN:
         rs = revs[nme]
         for i in range(1, len(rs)):
-            if rs[i][1].get('_placeholder'):
-                continue
+            if rs[i][1].get('_placeholder') or rs[i][0] in undo_tids:
+                continue        # (an undo re-establishes an earlier state as it was)
             if rs[i][1].get('derived_from') != rs[i - 1][0]:
                 out.fail((prop, 'threads-history', 'revision-derived-from-older'),
                          'revision %r of %s was computed from %r, the preceding revision is %r' % (
@@ -361,6 +418,10 @@ def history_oracle(run, out, prop):
     for nme in COUNTERS:
         total = sum(w[1] for tick, th, kind, data in run.events if kind == 'commit-ok' and data[0]
                     for n2, w in data[1].items() if n2 == nme)
+        # every successful undo takes the increments of its target away again (also through resolution)
+        incs = {data[0]: data[1] for tick, th, kind, data in run.events if kind == 'commit-ok' and data[0]}
+        total -= sum(incs[data[1]][nme][1] for tick, th, kind, data in run.events
+                     if kind == 'undo-ok' and nme in incs.get(data[1], {}))
         rs = revs[nme]
         final = rs[-1][1].get('n') if rs else 0
         if final != total:
